@@ -1,7 +1,7 @@
 MUTANTS = [
     dict(id="c13-delta-no-rebase", prop="C13", file="eqsig/fns/peaks_and_crossings.py",
-         old="    values = np.array(values, dtype=float)\n    # rebase to zero as first value\n    values -= values[0]\n    # remove all non-changing values\n    cleaned_values, non_zero_indices = clean_out_non_changing(values)\n    cleaned_values *= np.sign(cleaned_values[1])  # ensure first value is increasing\n    # compute delta peaks for cleaned data\n    cleaned_delta_peak_series = _determine_peak_only_series_4_cleaned_data",
-         new="    values = np.array(values, dtype=float)\n    # remove all non-changing values\n    cleaned_values, non_zero_indices = clean_out_non_changing(values)\n    cleaned_values *= np.sign(cleaned_values[1] - cleaned_values[0])  # ensure first value is increasing\n    # compute delta peaks for cleaned data\n    cleaned_delta_peak_series = _determine_peak_only_series_4_cleaned_data",
+         old="    values -= values[0]\n    values = values.astype(float)\n    # remove all non-changing values\n    cleaned_values, non_zero_indices = clean_out_non_changing(values)\n    cleaned_values *= np.sign(cleaned_values[1])  # ensure first value is increasing\n    # compute delta peaks for cleaned data\n    cleaned_delta_peak_series = _determine_peak_only_series_4_cleaned_data",
+         new="    values = values.astype(float)\n    # remove all non-changing values\n    cleaned_values, non_zero_indices = clean_out_non_changing(values)\n    cleaned_values *= np.sign(cleaned_values[1] - cleaned_values[0])  # ensure first value is increasing\n    # compute delta peaks for cleaned data\n    cleaned_delta_peak_series = _determine_peak_only_series_4_cleaned_data",
          why="pseudo-cyclic series no longer rebased: depends on a constant offset"),
     dict(id="c13-clean-first", prop="C13", file="eqsig/fns/peaks_and_crossings.py",
          old="    diff_values = np.ediff1d(values, to_begin=values[0])", new="    diff_values = np.ediff1d(values, to_begin=1)",
@@ -16,7 +16,7 @@ MUTANTS = [
          old="    perc = 0.5 / (n_ref * (a_ref / csr_peaks)[:, np.newaxis] ** (1 / b))", new="    perc = 0.5 / (n_ref * (a_ref / csr_peaks)[:, np.newaxis] ** (1 / b)) * np.where(np.arange(len(csr_peaks)) == 0, 2.0, 1.0)[:, np.newaxis]",
          why="first switched peak counted as a full cycle (only visible when the series does not start at 0)"),
     dict(id="c13-cutoff-nonstrict", prop="C13", file="eqsig/im.py",
-         old="    csr_peaks = np.where(csr_peaks < cut_off * np.max(abs(values)), 1.0e-14, csr_peaks)", new="    csr_peaks = np.where(csr_peaks < cut_off * np.max(csr_peaks) * 1.5, 1.0e-14, csr_peaks)",
+         old="    below_cut_off = csr_peaks < cut_off * np.max(abs(values))", new="    below_cut_off = csr_peaks < cut_off * np.max(csr_peaks) * 1.5",
          why="cut-off raised by 50 %"),
     dict(id="c13-amp-exponent", prop="C13", file="eqsig/im.py",
          old="    csr_n15_series1 = np.cumsum((np.abs(csr_peaks_s1)[:, np.newaxis] ** (1. / b)) / 2 / n_cyc, axis=0) ** b",
@@ -58,8 +58,8 @@ MUTANTS += [
              "        signs = np.where(np.mod(np.arange(len(peak_values)), 2), -1, 1)",
          why="window: more than 20000 local peaks -> alternating sign restarts every 4095 peaks (odd block: phase flips from the 2nd block on)"),
     dict(id="c13-w-delta-f32-250000", prop="C13", file="eqsig/fns/peaks_and_crossings.py",
-         old="    values = np.array(values, dtype=float)\n    # rebase to zero as first value\n    values -= values[0]\n    # remove all non-changing values\n    cleaned_values, non_zero_indices = clean_out_non_changing(values)\n    cleaned_values *= np.sign(cleaned_values[1])  # ensure first value is increasing\n    # compute delta peaks for cleaned data\n    cleaned_delta_peak_series = determine_peak_only_delta_series_4_cleaned_data",
-         new="    values = np.array(values, dtype=float)\n    if len(values) > 250000 and values.dtype == np.float64:\n        values = values.astype(np.float32)  # halve the memory of the working copies of very long records\n    # rebase to zero as first value\n    values -= values[0]\n    # remove all non-changing values\n    cleaned_values, non_zero_indices = clean_out_non_changing(values)\n    cleaned_values *= np.sign(cleaned_values[1])  # ensure first value is increasing\n    # compute delta peaks for cleaned data\n    cleaned_delta_peak_series = determine_peak_only_delta_series_4_cleaned_data",
+         old="    values = values.astype(float)\n    # remove all non-changing values\n    cleaned_values, non_zero_indices = clean_out_non_changing(values)\n    cleaned_values *= np.sign(cleaned_values[1])  # ensure first value is increasing\n    # compute delta peaks for cleaned data\n    cleaned_delta_peak_series = determine_peak_only_delta_series_4_cleaned_data",
+         new="    values = values.astype(np.float32 if len(values) > 250000 else float)  # halve the memory of the working copies of very long records\n    # remove all non-changing values\n    cleaned_values, non_zero_indices = clean_out_non_changing(values)\n    cleaned_values *= np.sign(cleaned_values[1])  # ensure first value is increasing\n    # compute delta peaks for cleaned data\n    cleaned_delta_peak_series = determine_peak_only_delta_series_4_cleaned_data",
          why="window: more than 250000 samples -> single-precision working copy in the delta series"),
     dict(id="c13-w-ncyc-carry-1200peaks", prop="C13", file="eqsig/im.py",
          old="    n_eq = np.cumsum(perc, axis=0)\n",
@@ -75,9 +75,9 @@ MUTANTS += [
              "        n_eq = np.cumsum(perc, axis=0)\n",
          why="window: more than 1200 switched peaks -> blocked cumulative sum whose carry is wrong from the third block on"),
     dict(id="c13-w-ncyc-submax-5000", prop="C13", file="eqsig/im.py",
-         old="    csr_peaks = np.where(csr_peaks < cut_off * np.max(abs(values)), 1.0e-14, csr_peaks)",
+         old="    below_cut_off = csr_peaks < cut_off * np.max(abs(values))",
          new="    vmax = np.max(abs(values)) if len(values) <= 5000 else np.max(abs(values[::4]))  # long records: maximum from every 4th sample\n"
-             "    csr_peaks = np.where(csr_peaks < cut_off * vmax, 1.0e-14, csr_peaks)",
+             "    below_cut_off = csr_peaks < cut_off * vmax",
          why="window + option: more than 5000 samples and cut_off > 0 -> cut-off relative to a subsampled maximum"),
     dict(id="c13-w-amp-f32-product-2e6", prop="C13", file="eqsig/im.py",
          old="    if not hasattr(b, '__len__'):\n        return np.reshape(csr_n15_series1, len(values))\n    return csr_n15_series1",
@@ -145,21 +145,29 @@ MUTANTS += [
          new="    if hasattr(b, '__len__') and perc.shape[0] * perc.shape[1] > 300000:\n"
              "        n_eq = np.empty(perc.shape)\n"
              "        for j in range(perc.shape[1]):\n"
-             "            n_eq[:, j] = np.cumsum(0.5 / (n_ref * (a_ref / csr_peaks) ** (1 / b[j])))\n"
+             "            n_eq[:, j] = np.cumsum(perc[:, j])\n"
              "    else:\n"
              "        n_eq = np.cumsum(perc, axis=0)\n",
          why="correct per-exponent streaming above a product threshold: must not be reported"),
 ]
 
-# reverts of fix 0114fbb (peak-only series rebase integer-typed series in floating point): int16 / int32 differences wrap around
-_HEAD = "    values = np.array(values, dtype=float)\n    # rebase to zero as first value\n    values -= values[0]\n    # remove all non-changing values\n    cleaned_values, non_zero_indices = clean_out_non_changing(values)\n    cleaned_values *= np.sign(cleaned_values[1])  # ensure first value is increasing\n    # compute delta peaks for cleaned data\n    cleaned_delta_peak_series = "
+# the integer handling of the peak-only series (fixes 0114fbb + 5e723a8): integer series are widened to int64, rebased exactly and only
+# then converted to float
+_INT_BLK = "    values = np.array(values)\n    if values.dtype.kind in 'iub':\n        values = values.astype(np.int64)  # narrow integer types would wrap around in the differences\n    # rebase to zero as first value (exact for integer series, also on an offset beyond 2**53)\n    values -= values[0]\n    values = values.astype(float)\n"
 MUTANTS += [
-    dict(id="c13-revert-0114fbb-delta", prop="C13", file="eqsig/fns/peaks_and_crossings.py",
-         old=_HEAD + "determine_peak_only_delta_series_4_cleaned_data", new=_HEAD.replace(", dtype=float", "") + "determine_peak_only_delta_series_4_cleaned_data",
-         why="reverts fix 0114fbb in determine_peaks_only_delta_series: an int16 series is rebased and differenced in int16 (wraps around)"),
-    dict(id="c13-revert-0114fbb-cyclic", prop="C13", file="eqsig/fns/peaks_and_crossings.py",
-         old=_HEAD + "_determine_peak_only_series_4_cleaned_data", new=_HEAD.replace(", dtype=float", "") + "_determine_peak_only_series_4_cleaned_data",
-         why="reverts fix 0114fbb in determine_pseudo_cyclic_peak_only_series: an int16 series is rebased in int16 (wraps around)"),
+    dict(id="c13-revert-0114fbb", prop="C13", file="eqsig/fns/peaks_and_crossings.py", count=2,
+         old=_INT_BLK, new="    values = np.array(values)\n    # rebase to zero as first value\n    values -= values[0]\n",
+         why="reverts 5e723a8 + 0114fbb to the original code: an int16 / int32 / unsigned series is rebased and differenced in its own dtype (wraps around)"),
+    dict(id="c13-regress-float-rebase-2p53", prop="C13", file="eqsig/fns/peaks_and_crossings.py", count=2,
+         old=_INT_BLK, new="    values = np.array(values, dtype=float)\n    # rebase to zero as first value\n    values -= values[0]\n",
+         why="the regression of 0114fbb alone: an int64 series on an offset beyond 2^53 is converted to float before rebasing and loses its small differences"),
+    dict(id="c13-audit-w1-unsigned", prop="C13", file="eqsig/fns/peaks_and_crossings.py", count=2,
+         old="    if values.dtype.kind in 'iub':\n        values = values.astype(np.int64)  # narrow integer types would wrap", new="    if values.dtype.kind == 'i':\n        values = values.astype(np.int64)  # narrow integer types would wrap",
+         why="audit W1: only signed integers are widened - unsigned counts wrap around in the rebasing"),
+    dict(id="c13-audit-w3-two-samples", prop="C13", file="eqsig/fns/peaks_and_crossings.py", count=2,
+         old="    values -= values[0]\n    values = values.astype(float)\n",
+         new="    values -= values[0]\n    values = values.astype(float)\n    if len(values) < 3:\n        return np.zeros_like(values)\n",
+         why="audit W3: two-sample series give all-zero peak-only series"),
 ]
 
 # reverts of fix 0f3f2c7 (power-law cycle functions take the peak amplitudes in floating point): abs() of the most negative
@@ -177,5 +185,17 @@ MUTANTS += [
          old="    values0 = np.asarray(values0, dtype=float)\n    values1 = np.asarray(values1, dtype=float)\n",
          new="",
          why="reverts fix 0f3f2c7 in calc_cyc_amp_combined_arrays_w_power_law"),
+]
+
+# audit (notes/audit/C13.md): revert of fix f083e4b and the confirmed survivors W1, W3, W4
+MUTANTS += [
+    dict(id="c13-revert-f083e4b", prop="C13", file="eqsig/im.py",
+         old="    perc[below_cut_off] = 0  # a peak below the cut-off counts no cycles whatever the units of the series (1e-14 is not small for every a_ref)\n",
+         new="",
+         why="reverts fix f083e4b: below-cut-off peaks count 0.5*(1e-14/a_ref)^(1/b) cycles - up to 13 % for series in small units"),
+    dict(id="c13-audit-w4-array-b-floor", prop="C13", file="eqsig/im.py",
+         old="    n_ref = 1\n",
+         new="    n_ref = 1\n    if hasattr(b, '__len__'):\n        b = np.maximum(b, 0.08)\n",
+         why="audit W4: array exponents below 0.08 are clipped in calc_n_cyc_array_w_power_law"),
 ]
 
